@@ -60,6 +60,7 @@ Definition wf_ledger (l : list pay) : bool :=
   | [] => false
   | x :: r =>
       let m := fold_left Z.max r x in
+      (0 <=? m) &&            (* commitments are chip counts: never negative *)
       forallb (fun p => match status p with
                         | Betting => risked p =? m
                         | Shoving => (0 <? risked p) && (risked p <=? m)
